@@ -1,6 +1,7 @@
 import EmsModel.Core.DepthProto
 import EmsModel.Lemmas.DepthHyp
 import EmsModel.Lemmas.DepthSignOnlyHyp
+import EmsModel.Gen.DepthSrc
 /-! Line-protocol driver for C13 (depth normalisation) and depth-coordinate discovery.
 `norm <DS> <coords|-> <opt>[,<opt>…]`  → `OK <DS'> W=<warnings of pass 1>/<pass 2>…` | `ERR`
       opt = two letters of N/T/F: positive_down, deep_to_shallow; the passes are applied in
@@ -14,6 +15,8 @@ import EmsModel.Lemmas.DepthSignOnlyHyp
 `hypsign <DS> <coords|->` → `1` iff the hypotheses of the sign-only theorems (`Ems.Depth.ValidSign` + no coordinate
       is its own bounds; decided by `validSignB`, sound by `validSignB_sound`) hold: one-dimensional coordinates on
       pairwise different dimensions, any number of levels (one level: a surface-only extract), any values
+`srcnorm <DS> <coords> <opt>[,<opt>…]` → as `norm`, computed by running the loop body GENERATED from the source of
+      `normalize_depth_variables` (`Gen.depthNormalizeBody`) with the interpreter of `Core/DepthSrc.lean`
 `propcheck <DS> <coords> <opt>` → `s<0|1> i<0|1>`: the call succeeds; a second application with
       the same options returns the same dataset (decidable conclusions used by the failing-input search) -/
 open Ems Ems.Proto Ems.Depth Ems.Depth.Proto
@@ -26,8 +29,23 @@ def runPasses (coords : List String) : Dataset → List (Option Bool × Option B
     | none => none
     | some (ds', w) => runPasses coords ds' rest (ws ++ [showNames w])
 
+def runSrcPasses (coords : List String) : Dataset → List (Option Bool × Option Bool) → List String →
+    Option (Dataset × List String)
+  | ds, [], ws => some (ds, ws)
+  | ds, (pd, dts) :: rest, ws =>
+    match Ems.DepthSrc.runNormalize Ems.Gen.depthNormalizeBody ds coords pd dts with
+    | none => none
+    | some (ds', w) => runSrcPasses coords ds' rest (ws ++ [showNames w])
+
 def step (line : String) : String :=
   match words line with
+  | ["srcnorm", dss, coords, opts] =>
+    match parseDataset? dss, Ems.Proto.allSome ((opts.splitOn ",").map parseOpt?) with
+    | some ds, some os =>
+      match runSrcPasses (parseNames coords) ds os [] with
+      | some (out, ws) => s!"OK {showDataset out} W={joinWith "/" ws}"
+      | none => "ERR"
+    | _, _ => "BAD"
   | ["norm", dss, coords, opts] =>
     match parseDataset? dss, Ems.Proto.allSome ((opts.splitOn ",").map parseOpt?) with
     | some ds, some os =>
